@@ -11,7 +11,7 @@ PROP = {
             "with 0-4 entries, descriptions (single / multi-line / non-string), wrong-typed keywords, titles (plain, odd, non-string, absent), private flag; plus the "
             "repository's own resources/schema.json; distinct = FNV of the schema; non-trivial = the emitted text declares >= 2 types or has >= 9 lines",
     "min_nontrivial": {"quick": 20000, "thorough": 1000000},
-    "max_secs": {"quick": 60, "thorough": 900},
+    "max_secs": {"quick": 600, "thorough": 1500},
     "require_clauses": ["a:no-panic", "b:parses", "c:root-declared", "repo-schema"],
     "assumptions": COMMON_ASSUME + [
         "'syntax errors' = any error (SyntaxError or DocError) reported by LuaParser::parse with the default ParserConfig on the emitted text",
